@@ -97,7 +97,7 @@ fn frame_graph(out: &mut Out) {
     out.parts.push(("sweep:Ps2Decoder::add_word all u16".into(), json!({"words": 65536, "panics": panics})));
 }
 /// hook-free panic hunts: every 2-frame bit stream and every 3-byte scancode stream with each call guarded
-fn stream_hunts(out: &mut Out) {
+fn stream_hunts(out: &mut Out, thorough: bool) {
     chunk("ps2-bit-streams 22 bits (guarded)");
     let mut n = 0;
     let mut panics = 0;
@@ -157,6 +157,21 @@ fn stream_hunts(out: &mut Out) {
         out.evaluations += n;
         out.nontrivial += n;
         out.parts.push((format!("pump:frames x300{}", if with_clear { " with clear" } else { "" }), json!({"bit_positions": n, "panics": panics})));
+    }
+    chunk("ps2-pumped-frame-pairs");
+    {
+        let seconds = crate::props::frame::pair_seconds(thorough);
+        let (n, bads) = crate::props::frame::pump_frame_pairs(6, &seconds);
+        let mut panics = 0;
+        for (w1, w2, rep, upto, _want, got) in bads {
+            if got == "PANIC" {
+                panics += 1;
+                viol(out, &format!("ps2/panic/pumped-pair/0x{:03X}-0x{:03X}", w1, w2), &format!("Ps2Decoder: frames 0x{:03X} and 0x{:03X} shifted in alternately panic in repetition {} at bit {} of the pair", w1, w2, rep + 1, upto + 1), "ps2", crate::props::frame::pump_pair_ops(w1, w2, rep, upto), "PANIC");
+            }
+        }
+        out.evaluations += n;
+        out.nontrivial += n;
+        out.parts.push(("pump:frame pairs (w1 w2)^6".into(), json!({"second_frames": seconds.len(), "bit_positions": n, "panics": panics})));
     }
 }
 
@@ -329,7 +344,7 @@ pub fn worker(tier: &str, result_path: &str) -> i32 {
     scan_graph::<Keyboard<Echo, ScancodeSet2>>(&mut out);
     scan_graph::<Keyboard<Echo, ScancodeSet1>>(&mut out);
     frame_graph(&mut out);
-    stream_hunts(&mut out);
+    stream_hunts(&mut out, thorough);
     kb_words::<ScancodeSet2>(&mut out);
     kb_words::<ScancodeSet1>(&mut out);
     ev_graph(&mut out);
